@@ -995,7 +995,10 @@ func main() {
 		"the full product of near misses of the configured values (exact, extended by a character / itself / NUL / blank, truncated, empty, prefixed, tail, other case, other value, 'any', stored hash, bare base64; of the 80-character values: exact, extended, truncated, last character changed) as supplied user x password, " +
 		"over {6 actions} x {granting, refusing path} x {contained, not contained client IP} [thorough: 3 paths x 4 IPs] x verifier {nil, equals-supplied [thorough, single entries: always, never]} x ask on/off [quick: pairs with asking off only]; " +
 		"hot-swap: every ordered pair of lists from the sub-alphabet with ReloadInternalUsers in between; " +
-		"distinct = (phase, verifier, per-entry (IP reason, permission reason, credential reason incl. the relation of a non-matching guess to the configured value), decision, AskCredentials)"
+		"history: per list family (single entries with plain/sha256/argon2 passwords and a hashed user name, two entries sharing the user name with different passwords and permissions or client IPs, two users, 'any' next to a user) EVERY history of <= 3 [thorough 4] steps on ONE Manager over the alphabet " +
+		"{authenticate(q): q in {no credentials, every user name x {every password any list of the family stands for, a wrong one}} x {every (action, path) some list grants, one nobody grants} x {client IP inside [, outside]}} + {ReloadInternalUsers(L'): L' in {same list, per entry: password replaced, [first entry] password stored another way, entry removed, permissions changed; first two entries exchanged; their passwords exchanged}}, " +
+		"each verdict compared with a fresh Manager built with the list in force for that one question (and that with the reference predicate); " +
+		"distinct = history: (reload kinds and, per earlier authenticate step, its relation to the last request and its verdict; verdict and per-entry reason of the last step); other phases: (phase, verifier, per-entry (IP reason, permission reason, credential reason incl. the relation of a non-matching guess to the configured value), decision, AskCredentials)"
 
 	// internal deadline (never a failure): lists not started before it are counted and reported
 	budget := 150 * time.Second
@@ -1006,6 +1009,19 @@ func main() {
 	var skipped atomic.Int64
 	skippedBy := map[string]int64{}
 	var skipMu sync.Mutex
+	// ---- history phase (run first, it is the cheapest): ONE Manager lives through every history of authenticate and
+	// ReloadInternalUsers steps up to a depth; each verdict must be the one of a fresh Manager with the list in force
+	if n := ck.runHistories(deadline); n != 0 {
+		skipped.Add(n)
+		skippedBy["history"] = n
+	}
+	if *flagHistOnly {
+		r.EvidencePath = os.DevNull
+		r.Exhaustive = skipped.Load() == 0
+		pprof.StopCPUProfile()
+		replaySummary()
+		r.Finish()
+	}
 	runPhase := func(phase string, lists [][]entry, sc *scope) {
 		if sc == nil {
 			sc = t.mainScope(phase)
@@ -1178,6 +1194,7 @@ func main() {
 		"request paths are valid path names not starting with '~' (a request path literally equal to a '~' permission is not judged)",
 		"an IPv6 network covering ::ffff:0:0/96 (here ::/0) versus an IPv4 client is a don't-care; a supplied token is a don't-care for AskCredentials",
 		"argon2 hashes use minimal cost parameters (m=8KiB,t=1,p=1); the expected result is guess==plaintext the hash was generated for",
+		"history phase: Authenticate is driven below the 0-4 s pause of rejected authentications (auth.LogAndDelayError is slept by the callers of the Manager), custom verifier nil, protocol RTSP, no token; the Manager of a history starts with the base list of its family",
 		"exhaustive inside the listed alphabets only",
 	}
 	pprof.StopCPUProfile()
